@@ -133,7 +133,7 @@ Definition counted_pairs (p : pk) : option (res (list (bytes * bytes)) * Z) :=
       closed forwarder; the handlers that touch the transport then fail their assert (AssertionError), or,
       with asserts compiled out (python -O), raise AttributeError - except _recv_socks5_authlist, which
       without asserts reaches close() again and returns normally.
-      Two switches: [asserts] (False = python -O) and [fix] (True = the proposed repair: close() also
+      Two switches: [asserts] (False = python -O) and [repaired] (True = the proposed repair: close() also
       clears _recv_handler). *)
 
 Inductive shandler := HVersion | H4Addr | H4User | H4Host | H5Auth | H5Cmd | H5Addr | H5HostLen | H5Host
@@ -190,11 +190,11 @@ Fixpoint utf8_valid (l : bytes) : bool :=
 
 Section Socks.
   Variable asserts : bool.
-  Variable fix : bool.
+  Variable repaired : bool.
 
   (* SSHForwarder.close(): transport.close(); self._transport = None   (+ the repair) *)
   Definition s_close (s : socks) : socks :=
-    mkSocks (if fix then HNone else sh s) (need s) (sbuf s) false (shst s) (sport s) (satype s)
+    mkSocks (if repaired then HNone else sh s) (need s) (sbuf s) false (shst s) (sport s) (satype s)
             (swrites s) (sfwd s).
 
   (* assert self._transport is not None; self._transport.write(data) *)
